@@ -50,6 +50,16 @@ claimed = {
             "builders), 1-16 storages made known by all four paths (some after entities exist), with every storage observed "
             "after every deletion and after the creations that follow; a rejection by the plain-map specification at an "
             "observation, or a difference in the values destroyed by a deletion, is the violation.", "5.C05"),
+    "C09": ("Theorems about the literal model of the lazy queue (push; pop-until-empty loop with explicit fuel): the queued "
+            "actions run only after the merge and the purge of that maintain; the actions run are the queue as it was followed "
+            "by the actions queued by running actions, in queue order, each exactly once (FIFO, nested later in the same "
+            "maintain); each action performs exactly its operations in order; the queue is empty when maintain returns (the "
+            "fuel is proved sufficient); a lazy insert/remove is the generation-checked Storage operation, so on a dead target "
+            "nothing changes except that the carried value is destroyed; histories without lazy operations are unchanged. All "
+            "earlier theorems apply to the flattened history. Tie: the real World runs lazy inserts, batch inserts, removes, "
+            "lazy builders and closures (nested to depth 3, creating and deleting entities, queueing further closures) over "
+            "several maintains; every operation run inside a closure is logged in order with what it destroyed and compared "
+            "exactly with the extracted model.", "5.C09"),
     "C12": ("Theorems: for both wrappers over any inner kind, every Storage-API operation other than clear() and the "
             "emission switch appends events whose replay over the old membership gives the new membership (the relation is "
             "transitive, so it holds between a reader's registration and any later read); builder/lazy insertion and entity "
